@@ -72,6 +72,10 @@ def run(ctx):
     ctx.clause("C17.8 an element's logical type is the one the file states: the LogicalType union tables equal the specification's")
     from ..rules import logicaltype
     nlt = logicaltype.check(ctx)
+    ctx.clause("C17.10 the schema elements of a footer (names - empty ones included -, types, repetition, child counts) come back from the parser as the writer serialised them (round-trip probe of FileMetaData)")
+    from ..rules import thriftrt
+    nrt = thriftrt.check(ctx, only=("FileMetaData",))
+    ctx.floor("C17 footer round-trip probes", nrt, 1)
     ctx.floor("C17 logical type table rows", nlt, 30)
     from ..rules import units
     nu = units.check(ctx, P.lib_functions())
